@@ -43,6 +43,27 @@ package rebase
 // The records and suppliers clauses speak of what Parse reads, not of the JSON
 // form, and go on taking nil and empty as the same there.
 //
+// SPECIAL CHARACTERS in fields (c16Special). The fields of a listing are free
+// text: whatever stands between the tag and the end of the line is the field.
+// Text that JSON writes in a way of its own must come back from the export as
+// it went in: C0 control characters (ESC, vertical tab, NUL, backspace, ...;
+// all but LF and CR, which end a line of the listing), DEL and the C1 controls,
+// the Unicode line and paragraph separators U+2028 / U+2029, runes above U+FFFF
+// that are not printable (tags, private use, noncharacters, U+10FFFF) next to
+// printable ones, and text that looks like an escape (backslash, quote, \n,
+// \u0041, \x41 spelled out). All of them are valid UTF-8 and, by experiment
+// on the unchanged code base, all of them round-trip; bytes that are NOT valid
+// UTF-8 do not (JSON text cannot carry them: encoding/json writes U+FFFD) and
+// stay outside the domain. Every token is put once into every field of a
+// one-record listing (exhaustive), and seeded listings carry tokens of one
+// kind, or of all kinds, sprinkled over their fields; the listings go through
+// Parse (records and suppliers clauses as for any listing) and the result and
+// the described map through Export. A failure that only the tokens of one kind
+// bring about is classed control-character-in-field,
+// unicode-line-separator-in-field, nonprintable-rune-above-FFFF-in-field or
+// escape-look-alike-in-field (special-characters-in-field if it takes several
+// kinds).
+//
 // Inputs come from an independent format-31 writer (c16Write) that follows the
 // format description quoted at the top of rebase.go and the distributed sample:
 // header prose, the title line of the supplier table, a blank line, one line
@@ -98,6 +119,9 @@ type c16Doc struct {
 	// a path that held another listing before (a history on one path) and names
 	// that shape; pathText describes the history
 	pathClass, pathText string
+	// special, when not nil, says that special-character tokens were put into the
+	// fields of the listing, and how to make the variants of it (c16Special)
+	special *c16SpecialPlan
 }
 
 func c16Word(rng *rand.Rand, alpha string, min, max int) string {
@@ -318,7 +342,7 @@ func c16IndentName(indent string) string {
 func c16Describe(d c16Doc, r *c16Rec) string {
 	s := fmt.Sprintf("%d header line(s), supplier table of %d line(s) indented with %s", len(d.header), len(d.suppliers), c16IndentName(d.indent))
 	if len(d.suppliers) > 0 {
-		s += " (first: " + string(d.suppliers[0].code) + " = " + strconv.Quote(d.suppliers[0].name) + ")"
+		s += " (first: " + string(d.suppliers[0].code) + " = " + strconv.QuoteToASCII(d.suppliers[0].name) + ")"
 	}
 	s += fmt.Sprintf(", %d record(s)", len(d.recs))
 	if d.noFinalNL {
@@ -327,7 +351,12 @@ func c16Describe(d c16Doc, r *c16Rec) string {
 	if d.pathText != "" {
 		s += ", " + d.pathText
 	}
-	if r != nil {
+	if d.special != nil {
+		s += ", " + d.special.text
+	}
+	if r != nil && d.special != nil { // fields in Go quoting: the tokens are not all visible as they are
+		s += fmt.Sprintf("; record <1>%+q <2>%+q <3>%+q <4>%+q <5>%+q <6>%+q <7>%s <8>%+q", r.name, c16Clip(r.iso), r.site, r.meth, r.org, r.source, r.letters, c16Clip(r.refs[0]))
+	} else if r != nil {
 		s += fmt.Sprintf("; record <1>%s <2>%s <3>%s <4>%s <5>%s <6>%s <7>%s <8>%s", r.name, c16Clip(r.iso), r.site, r.meth, r.org, r.source, r.letters, c16Clip(r.refs[0]))
 	}
 	return s
@@ -415,6 +444,9 @@ func c16CheckDoc(rec, sup *verifRun, d c16Doc, text []byte, parse func([]byte) m
 		if d.pathClass != "" && pathOnly() {
 			return d.pathClass
 		}
+		if d.special != nil {
+			return d.special.classify(class, "parse", c16ParseFails)
+		}
 		if d.noFinalNL && nlOnly() {
 			return "no-final-newline"
 		}
@@ -436,6 +468,8 @@ func c16CheckDoc(rec, sup *verifRun, d c16Doc, text []byte, parse func([]byte) m
 		supClasses = []string{d.pathClass}
 	} else if len(w0) > 0 && d.noFinalNL && nlOnly() {
 		supClasses = []string{"no-final-newline"}
+	} else if cl := ""; len(w0) > 0 && d.special != nil && func() bool { cl = d.special.classify("", "parse", c16ParseFails); return cl != "" }() {
+		supClasses = []string{cl}
 	} else if len(w0) > 0 {
 		tabbed, shifted, both := d, d, d
 		tabbed.indent = "\t"
@@ -600,25 +634,47 @@ func c16ListShape(a, b Enzyme) (class, detail string) {
 }
 
 func c16CheckExport(ex *verifRun, m map[string]Enzyme, what string) {
+	c16CheckExportAs(ex, m, what, nil)
+}
+
+// c16CheckExportAs is c16CheckExport for a map made from a listing with
+// special-character tokens: the class of a failure is then the kind of token
+// that brings it about (sp.classify), if one does.
+func c16CheckExportAs(ex *verifRun, m map[string]Enzyme, what string, sp *c16SpecialPlan) {
 	ex.Case(fmt.Sprintf("%s entries=%d", what, len(m)), len(m) > 0)
+	cl := func(class string) string {
+		if sp != nil {
+			return sp.classify(class, "export", c16ExportFails)
+		}
+		return class
+	}
 	var out []byte
-	if !ex.Guard("panic", what, func() { out = Export(m) }) {
+	if !func() (ok bool) {
+		defer func() {
+			if r := recover(); r != nil {
+				ex.Fail(cl("panic"), what, fmt.Sprintf("panic: %v", r))
+				ok = false
+			}
+		}()
+		out = Export(m)
+		return true
+	}() {
 		return
 	}
 	var back map[string]Enzyme
 	if err := json.Unmarshal(out, &back); err != nil {
-		ex.Fail("not-json", what, "Export output does not parse: "+err.Error()+": "+c16Clip(string(out)))
+		ex.Fail(cl("not-json"), what, "Export output does not parse: "+err.Error()+": "+c16Clip(string(out)))
 		return
 	}
 	if len(back) != len(m) {
-		ex.Fail("entry-count-differs", what, fmt.Sprintf("%d entries after the round trip, want %d", len(back), len(m)))
+		ex.Fail(cl("entry-count-differs"), what, fmt.Sprintf("%d entries after the round trip, want %d", len(back), len(m)))
 	}
 	for k, e := range m {
 		b, ok := back[k]
 		if !ok {
-			ex.Fail("entry-missing", what, "key "+strconv.Quote(k)+" lost")
+			ex.Fail(cl("entry-missing"), what, "key "+strconv.QuoteToASCII(k)+" lost")
 		} else if !c16SameEnzyme(e, b) {
-			ex.Fail("entry-differs", what, fmt.Sprintf("key %q: %+v came back as %+v", k, e, b))
+			ex.Fail(cl("entry-differs"), what, fmt.Sprintf("key %+q: %+q came back as %+q", k, e, b))
 		} else if class, detail := c16ListShape(e, b); class != "" {
 			if c16Recorded(ex, class) < 3 { // the text is costly to make and only the first three of a class are kept
 				detail = fmt.Sprintf("key %q: %s (every field equal otherwise); exported %#v, came back as %#v; JSON: %s", k, detail, e, b, c16Clip(c16EntryJSON(out, k)))
@@ -1027,6 +1083,267 @@ func c16History(t *testing.T, rec, sup *verifRun, dir string, seed int64, h, max
 	}
 }
 
+// ---- special characters in fields ----
+
+type c16SpecialKind struct {
+	class, text string
+	tokens      []string
+}
+
+// c16SpecialKinds: the tokens put into fields, by kind. All of them are valid
+// UTF-8 and none contains LF or CR (which end a line of the listing), a comma
+// or a '<'.
+var c16SpecialKinds = func() []c16SpecialKind {
+	runes := func(rs ...rune) (out []string) {
+		for _, r := range rs {
+			out = append(out, string(r))
+		}
+		return out
+	}
+	var ctl []rune
+	for r := rune(0); r <= 0x9f; r++ {
+		if r != 0x0a && r != 0x0d && (r < 0x20 || r >= 0x7f) {
+			ctl = append(ctl, r)
+		}
+	}
+	bs := string(rune(0x5c)) // one backslash
+	return []c16SpecialKind{
+		{"control-character-in-field", "control characters: every C0 control U+0000..U+001F but LF and CR (so NUL, BEL, backspace, TAB, vertical tab, form feed, ESC, ...), DEL U+007F, every C1 control U+0080..U+009F", runes(ctl...)},
+		{"unicode-line-separator-in-field", "the Unicode line separator U+2028 and paragraph separator U+2029", runes(0x2028, 0x2029)},
+		{"nonprintable-bmp-rune-in-field", "runes of the basic plane that are not printable: soft hyphen U+00AD, Arabic letter mark U+061C, zero width space U+200B, private use U+E000, byte order mark U+FEFF, replacement character U+FFFD, noncharacters U+FFFE U+FFFF", runes(0xad, 0x61c, 0x200b, 0xe000, 0xfeff, 0xfffd, 0xfffe, 0xffff)},
+		{"supplementary-plane-rune-in-field", "runes above U+FFFF: not printable (noncharacters U+1FFFE U+1FFFF, language tag U+E0001, cancel tag U+E007F, private use U+F0000 U+10FFFD, the last code point U+10FFFF) and printable (U+10000, U+1F9EC, U+20000)", runes(0x1fffe, 0x1ffff, 0xe0001, 0xe007f, 0xf0000, 0x10fffd, 0x10ffff, 0x10000, 0x1f9ec, 0x20000)},
+		{"escape-look-alike-in-field", "text that looks like an escape, spelled out in plain characters: a backslash, two backslashes, a quote, backslash+quote, backslash+n, backslash+t, backslash+u0041, backslash+u001b, backslash+x41, backslash+U0001F9EC, backslash+slash, an apostrophe, &amp;",
+			[]string{bs, bs + bs, "\"", bs + "\"", bs + "n", bs + "t", bs + "u0041", bs + "u001b", bs + "x41", bs + "U0001F9EC", bs + "/", "'", "&amp;"}},
+	}
+}()
+
+// c16Ins is one token put into one field: field counts through c16Fields, pos
+// is the rune offset in the field as it was before any token was put in.
+type c16Ins struct {
+	field, pos, kind int
+	tok              string
+}
+
+// c16SpecialPlan is a listing with special-character tokens in its fields, kept
+// as the listing without tokens plus the list of insertions, so that variants
+// with the tokens of one kind only can be made when a clause fails.
+type c16SpecialPlan struct {
+	base    c16Doc
+	ins     []c16Ins
+	phase   int // of c16ExpectedShapes
+	text    string
+	classes map[string]string
+}
+
+// c16Fields lists the free-text fields of a listing in a fixed order: header
+// lines, supplier names, then per record <1> <2> <3> <4> <5> <6> and every
+// reference line. (The <7> field is a string of code letters, not free text.)
+func c16Fields(d *c16Doc) (fs []*string, names map[int]bool, label []string) {
+	names = map[int]bool{}
+	add := func(p *string, l string) { fs, label = append(fs, p), append(label, l) }
+	for i := range d.header {
+		add(&d.header[i], "header line "+strconv.Itoa(i+1))
+	}
+	for i := range d.suppliers {
+		add(&d.suppliers[i].name, "name of supplier "+string(d.suppliers[i].code))
+	}
+	for i := range d.recs {
+		r, n := &d.recs[i], " of record "+strconv.Itoa(i+1)
+		names[len(fs)] = true
+		add(&r.name, "<1>"+n)
+		add(&r.iso, "<2>"+n)
+		add(&r.site, "<3>"+n)
+		add(&r.meth, "<4>"+n)
+		add(&r.org, "<5>"+n)
+		add(&r.source, "<6>"+n)
+		for k := range r.refs {
+			if k == 0 {
+				add(&r.refs[k], "<8>"+n)
+			} else {
+				add(&r.refs[k], "reference continuation line "+strconv.Itoa(k)+n)
+			}
+		}
+	}
+	return fs, names, label
+}
+
+func c16CloneDoc(d c16Doc) c16Doc {
+	c := d
+	c.header = append([]string(nil), d.header...)
+	c.suppliers = append([]c16Supplier(nil), d.suppliers...)
+	c.recs = make([]c16Rec, len(d.recs))
+	for i, r := range d.recs {
+		r.refs = append([]string(nil), r.refs...)
+		c.recs[i] = r
+	}
+	return c
+}
+
+// variant makes the listing with the tokens of the kinds that keep admits.
+func (p *c16SpecialPlan) variant(keep func(kind int) bool) c16Doc {
+	d := c16CloneDoc(p.base)
+	fs, _, _ := c16Fields(&d)
+	byField := map[int][]c16Ins{}
+	for _, in := range p.ins {
+		if keep(in.kind) {
+			byField[in.field] = append(byField[in.field], in)
+		}
+	}
+	for f, list := range byField {
+		sort.SliceStable(list, func(a, b int) bool { return list[a].pos < list[b].pos })
+		rs := []rune(*fs[f])
+		var b strings.Builder
+		at := 0
+		for _, in := range list {
+			b.WriteString(string(rs[at:in.pos]))
+			b.WriteString(in.tok)
+			at = in.pos
+		}
+		b.WriteString(string(rs[at:]))
+		*fs[f] = b.String()
+	}
+	return d
+}
+
+func c16NamesDistinct(d c16Doc) bool {
+	seen := map[string]bool{}
+	for _, r := range d.recs {
+		if seen[r.name] {
+			return false
+		}
+		seen[r.name] = true
+	}
+	return true
+}
+
+// c16WithSpecial finishes a plan and returns the listing with all its tokens.
+// Enzyme names must stay distinct (they are the keys), in the listing and in
+// its one-kind variants: should tokens ever make two names equal, the names
+// get no tokens.
+func c16WithSpecial(p *c16SpecialPlan, what string) c16Doc {
+	all := func(int) bool { return true }
+	distinct := c16NamesDistinct(p.variant(all))
+	for k := range c16SpecialKinds {
+		k := k
+		distinct = distinct && c16NamesDistinct(p.variant(func(kind int) bool { return kind == k }))
+	}
+	_, names, label := c16Fields(&p.base)
+	if !distinct {
+		var kept []c16Ins
+		for _, in := range p.ins {
+			if !names[in.field] {
+				kept = append(kept, in)
+			}
+		}
+		p.ins = kept
+	}
+	p.text = what + ": " + strconv.Itoa(len(p.ins)) + " token(s) in the fields"
+	if len(p.ins) > 0 {
+		in := p.ins[0]
+		p.text += fmt.Sprintf(", the first %+q at rune offset %d of %s", in.tok, in.pos, label[in.field])
+	}
+	p.classes = map[string]string{}
+	d := p.variant(all)
+	d.special = p
+	return d
+}
+
+// classify gives the class of a failure on a listing with tokens: fails says
+// whether a listing fails the clause in question. If the listing without any
+// token fails too, or the listing with all tokens does not fail by this
+// measure, the tokens are not what it is about and the class stays; otherwise
+// the class is that of the first kind whose tokens alone make the listing
+// fail, special-characters-in-field if no kind does so alone.
+func (p *c16SpecialPlan) classify(class, which string, fails func(d c16Doc, phase int) bool) string {
+	if c, ok := p.classes[which]; ok {
+		if c == "" {
+			return class
+		}
+		return c
+	}
+	c := ""
+	bad := func(keep func(int) bool) bool { return fails(p.variant(keep), p.phase) }
+	if !bad(func(int) bool { return false }) && bad(func(int) bool { return true }) {
+		c = "special-characters-in-field"
+		for k := range c16SpecialKinds {
+			k := k
+			if bad(func(kind int) bool { return kind == k }) {
+				c = c16SpecialKinds[k].class
+				break
+			}
+		}
+	}
+	p.classes[which] = c
+	if c == "" {
+		return class
+	}
+	return c
+}
+
+// c16ExportFails: does the export of the map the listing describes fail to
+// parse back to it (or panic)?
+func c16ExportFails(d c16Doc, phase int) (fails bool) {
+	defer func() {
+		if recover() != nil {
+			fails = true
+		}
+	}()
+	m := c16ExpectedShapes(d, phase)
+	return c16ParsesTo(Export(m), m) != ""
+}
+
+// c16ParseFails: does Parse on the listing give something else than the map
+// the listing describes (or panic)?
+func c16ParseFails(d c16Doc, phase int) (fails bool) {
+	defer func() {
+		if recover() != nil {
+			fails = true
+		}
+	}()
+	return !reflect.DeepEqual(c16Normal(Parse(c16Write(d))), c16Normal(c16Expected(d)))
+}
+
+// c16Sprinkle makes a plan for a listing: every free-text field gets 1..3
+// tokens with probability density %, drawn from the given kinds, at random
+// rune offsets (start and end of the field included); a listing with records
+// gets at least one token in a record field.
+func c16Sprinkle(rng *rand.Rand, base c16Doc, kinds []int, density, phase int) *c16SpecialPlan {
+	p := &c16SpecialPlan{base: c16CloneDoc(base), phase: phase}
+	fs, _, _ := c16Fields(&p.base)
+	first := len(p.base.header) + len(p.base.suppliers)
+	put := func(f int) {
+		kind := kinds[rng.Intn(len(kinds))]
+		toks := c16SpecialKinds[kind].tokens
+		p.ins = append(p.ins, c16Ins{field: f, pos: rng.Intn(len([]rune(*fs[f])) + 1), kind: kind, tok: toks[rng.Intn(len(toks))]})
+	}
+	inRecord := false
+	for f := range fs {
+		if rng.Intn(100) >= density {
+			continue
+		}
+		for n := 1 + rng.Intn(3); n > 0; n-- {
+			put(f)
+		}
+		inRecord = inRecord || f >= first
+	}
+	if !inRecord && len(fs) > first {
+		put(first + rng.Intn(len(fs)-first))
+	}
+	return p
+}
+
+// c16SpecialBase is the one-record listing of the exhaustive part: a record of
+// the distributed sample with one supplier and one reference continuation line.
+func c16SpecialBase(indent string) c16Doc {
+	return c16Doc{
+		header:    []string{"REBASE version 104, header prose"},
+		indent:    indent,
+		suppliers: []c16Supplier{{'N', "New England Biolabs (3/21)"}},
+		recs: []c16Rec{{name: "AatII", iso: "ZraI,Ssp5230I", site: "GACGT^C", meth: "5(5)", org: "Acetobacter aceti", source: "IFO 3281", letters: "N",
+			refs: []string{"Sugisaki, H., Maekawa, Y., Kanazawa, S., Takanami, M., (1982) Nucleic Acids Res., vol. 10, pp. 5747-5752.", "Unpublished observations."}}},
+	}
+}
+
 func TestVerifC16(t *testing.T) {
 	thorough := verifThorough()
 	seed := verifSeed()
@@ -1034,11 +1351,18 @@ func TestVerifC16(t *testing.T) {
 	nRandom := 150
 	nHist, histMaxRecs := 120, 60
 	nExpHist, expMaxRecs := 48, 40
+	specialSizes, nSpecial, specialMax := []int{1, 2, 3, 5, 12}, 4, 60
 	if thorough {
+		nSpecial, specialMax = 150, 300
 		nRandom = 6000
 		nHist, histMaxRecs = 3000, 300
 		nExpHist, expMaxRecs = 1600, 300
 	}
+	var kindTexts []string
+	for _, k := range c16SpecialKinds {
+		kindTexts = append(kindTexts, k.text)
+	}
+	specialText := strings.Join(kindTexts, "; ")
 	patterns := []string{"L-", "L--", "L---", "L-----", "L-L", "L-L-", "L--L--", "-L-", "--L--", "LL-", "LLL---", "L-xxxx-", "xL-x-x-L--"}
 	indents := []string{"                ", "                ", "\t", "\t\t", " ", "    ", "\t\t\t\t", "        "}
 	dom := "listings from an independent format-31 writer: every record count 0..300 once plus " + strconv.Itoa(nRandom) + " seeded listings with 0..300 records; 0..40 lines of header prose (blank and one-blank lines, indented lines, example supplier lines as in the real header, <ENZYME NAME>-style words, non-ASCII); " +
@@ -1046,12 +1370,15 @@ func TestVerifC16(t *testing.T) {
 		"any of <2>..<8> empty with probability 0/10/50 % per listing; " +
 		"empty <7> fields after supplier letters: besides what the 10 % and 50 % listings contain, 78 small listings (2..10 records, table of 1, 3 or 15 suppliers, 16 spaces or a tab) whose records follow the patterns " + strings.Join(patterns, " ") + " (L = <7> field with 1..15 letters, - = empty <7> field, x = either), i.e. an empty field directly after a record with letters and with 1..4 further empty-field records in between, before and after further records with letters; 1..4 reference lines per record (only the first is tagged); every 9th listing read through Read on a temp file; " +
 		"final newline: all of the above end with a blank line, and in addition listings that end WITHOUT a final newline right after the last record's <8> line or after its last reference continuation line (with no record: after the last supplier, title or header line): the small shapes (0..3 records, so single-record listings too, x 0..3 suppliers x spaces/tab) in both endings, every record count 0..300 once in each ending, and " + strconv.Itoa(nRandom/3) + " further seeded listings; plus the distributed sample data/rebase_test.txt against an independent reader; " +
+		"special characters in fields: tokens of five kinds, all valid UTF-8, none with LF, CR, comma or '<' - " + specialText + " - put into the free-text fields (header lines, supplier names, <1> <2> <3> <4> <5> <6> <8> and reference continuation lines; a field must come back exactly as written, token included): " +
+		"exhaustively every token once in every one of the 10 fields of a one-record listing (one supplier, 16 spaces or a tab, one header line, one continuation line), in the middle, at the start or at the end of the field in turn, and per kind and for all kinds mixed " + strconv.Itoa(len(specialSizes)) + " seeded listings of " + strings.Trim(fmt.Sprint(specialSizes), "[]") + " records plus " + strconv.Itoa(nSpecial) + " of 0.." + strconv.Itoa(specialMax) + " records (0..6 header lines) in which every field gets 1..3 tokens with probability 15, 40 or 100 % per listing, at least one in a record field; bytes that are not valid UTF-8 are outside the domain (JSON text cannot carry them, so the export clause could not hold); " +
+		"a failure that goes away without the tokens is classed by the first kind whose tokens alone bring it about (control-character-in-field, unicode-line-separator-in-field, nonprintable-bmp-rune-in-field, supplementary-plane-rune-in-field, escape-look-alike-in-field), special-characters-in-field if no kind does alone; " +
 		"histories on one path: " + strconv.Itoa(nHist) + " seeded histories in which three listings (0..8 records, every fifth history 0.." + strconv.Itoa(histMaxRecs) + "; table of 1..26 suppliers; 1..6 header lines) are written to the SAME path one after the other and the path is read through Read after every write: each Read must give one entry per record of the listing in the file NOW, with its fields and suppliers; " +
 		"six variants in turn: (a) unrelated listings brought to exactly the same byte length (letters appended to the first header line) with the modification time set to the same whole second by os.Chtimes after every write, (b) same length, time left to the file system, (c) a listing, the same listing with the letters of every recognition sequence exchanged, the first listing again, same length, time pinned, (d) different lengths, time pinned, (e) as (c) with the time left to the file system, (f) length and time as they come; " +
 		"even histories overwrite the file in place, odd ones rename a new file over the path; length and time are confirmed with os.Stat before each Read; a failure at the 2nd or 3rd step that Parse on the file's bytes does not show is classed path-reused-same-size-and-mtime (a, c), path-reused-same-size (b, e), path-reused-same-mtime (d), path-reused (f)"
 	rec := newVerifRun("C16", "io/rebase.Parse/post/records", dom+"; compared per record: key, name, isoschizomer list (an empty <2> field may come back as nil, [] or [\"\"]), recognition sequence, methylation site, organism, source, first reference; entry count; non-trivial = at least one record")
 	sup := newVerifRun("C16", "io/rebase.Parse/post/suppliers", dom+"; compared per record: CommercialAvailability == names of the <7> letters, in order, from the file's own table (nil and empty equal), so a record with an empty <7> field has no supplier whatever the records before it have (a supplier reported for an empty field is classed empty-supplier-field-after-suppliers when an earlier record of the listing has letters, else empty-supplier-field); non-trivial = at least one record with a supplier letter")
-	ex := newVerifRun("C16", "io/rebase.Export/post/json-roundtrip", "json.Unmarshal(Export(m)) == m, entry by entry and field by field, for m = the result of Parse on each listing above, m = the map the listing describes built directly (suppliers decoded by the oracle), and the empty map; "+
+	ex := newVerifRun("C16", "io/rebase.Export/post/json-roundtrip", "json.Unmarshal(Export(m)) == m, entry by entry and field by field, for m = the result of Parse on each listing above (those with special-character tokens in their fields included: the control characters, separators, non-printable and supplementary-plane runes and escape look-alikes listed there must come back rune for rune, in names - which are the keys too -, isoschizomers, sites, organisms, sources, supplier names and references), m = the map the listing describes built directly (suppliers decoded by the oracle), and the empty map; "+
 		"absent and empty lists: a list that is ABSENT in m (nil; null in the JSON text) must come back absent and one that is EMPTY (non-nil, length 0; [] in the text) must come back empty, for Isoschizomers and for CommercialAvailability - the JSON form tells the two apart and with the tags of Enzyme both shapes survive Export and json.Unmarshal; no exception: the experiment on the unchanged code base shows nil -> null -> nil and [] -> [] -> [] for both fields, and {} -> non-nil for the empty map; "+
 		"judged on an entry that is equal in every field otherwise, classes empty-collection-became-absent and absent-collection-became-empty; "+
 		"both shapes are supplied: Parse on the unchanged code base gives an absent CommercialAvailability for an empty <7> field and the one-element list [\"\"] for an empty <2> field (never an empty non-nil list), and in the described map the list of an empty <2> field is empty non-nil when n is even and absent when n is odd, the list of an empty <7> field empty non-nil when n/2 is even and absent when it is odd, n = number of the record in the listing from 0 + a phase 0..3 that goes round with the listings (four records in a row: both lists empty, supplier list only, isoschizomer list only, both absent; one-record listings get all four in turn); the empty map must come back as a non-nil map; "+
@@ -1063,17 +1390,20 @@ func TestVerifC16(t *testing.T) {
 	sup.Sampled()
 	ex.Sampled()
 
+	var runDoc func(idx int, d c16Doc, tagMore string)
 	run := func(idx int, sh c16Shape) {
 		rng := rand.New(rand.NewSource(seed*1000003 + int64(idx)))
-		d := c16NewDoc(rng, sh)
+		runDoc(idx, c16NewDoc(rng, sh), "")
+	}
+	runDoc = func(idx int, d c16Doc, tagMore string) {
 		text := c16Write(d)
-		parse, tag := Parse, "Parse"
+		parse, tag := Parse, "Parse"+tagMore
 		if idx%9 == 4 {
 			p := filepath.Join(dir, "l"+strconv.Itoa(idx)+".txt")
 			if err := ioutil.WriteFile(p, text, 0644); err != nil {
 				t.Fatal(err)
 			}
-			tag = "Read"
+			tag = "Read" + tagMore
 			parse = func([]byte) map[string]Enzyme {
 				m, err := Read(p)
 				if err != nil {
@@ -1084,9 +1414,9 @@ func TestVerifC16(t *testing.T) {
 		}
 		got := c16CheckDoc(rec, sup, d, text, parse, tag)
 		if got != nil {
-			c16CheckExport(ex, got, "Parse result of "+c16Describe(d, nil))
+			c16CheckExportAs(ex, got, "Parse result of "+c16Describe(d, nil), d.special)
 		}
-		c16CheckExport(ex, c16ExpectedShapes(d, idx%4), "described map (lists of empty <2> and <7> fields empty non-nil or absent by record, phase "+strconv.Itoa(idx%4)+") of "+c16Describe(d, nil))
+		c16CheckExportAs(ex, c16ExpectedShapes(d, idx%4), "described map (lists of empty <2> and <7> fields empty non-nil or absent by record, phase "+strconv.Itoa(idx%4)+") of "+c16Describe(d, nil), d.special)
 	}
 	shape := func(rng *rand.Rand, n int) c16Shape {
 		sh := c16Shape{nRecs: n, indent: indents[rng.Intn(len(indents))], nSupp: rng.Intn(27), maxLett: 15, maxIso: 12, emptyBias: []int{0, 10, 50}[rng.Intn(3)], headerN: rng.Intn(41)}
@@ -1129,6 +1459,7 @@ func TestVerifC16(t *testing.T) {
 	}
 
 	srng := rand.New(rand.NewSource(seed ^ 0x16))
+	srngSpecial := rand.New(rand.NewSource(seed ^ 0x161616))
 	idx := 0
 	// listings without final newline: their own index range and shape stream,
 	// so that the listings with final newline stay what they were
@@ -1171,6 +1502,49 @@ func TestVerifC16(t *testing.T) {
 					}
 				}
 			}
+		}
+	}
+	// special characters in fields (own index range and streams). First every
+	// token once in every free-text field of the one-record listing, in the
+	// middle of the field, at its start or at its end in turn; then seeded
+	// listings with tokens of one kind, or of all kinds, sprinkled over them
+	sidx := 3000000
+	allKinds := make([]int, len(c16SpecialKinds))
+	for k := range allKinds {
+		allKinds[k] = k
+	}
+	for k, kind := range c16SpecialKinds {
+		for ti, tok := range kind.tokens {
+			base := c16SpecialBase(indents[(k+ti)%2*2]) // 16 spaces or a tab
+			fs, _, label := c16Fields(&base)
+			for f := range fs {
+				n := len([]rune(*fs[f]))
+				p := &c16SpecialPlan{base: c16CloneDoc(base), phase: sidx % 4, ins: []c16Ins{{field: f, pos: []int{n / 2, 0, n}[(ti+f)%3], kind: k, tok: tok}}}
+				runDoc(sidx, c16WithSpecial(p, "one token, kind "+kind.class), fmt.Sprintf(" special=%s token=%+q in %s", kind.class, tok, label[f]))
+				sidx++
+			}
+		}
+	}
+	sprinkled := func(n, which int) {
+		rng := rand.New(rand.NewSource(seed*1000003 + int64(sidx)))
+		kinds, what := allKinds, "tokens of all kinds"
+		if which < len(c16SpecialKinds) {
+			kinds, what = []int{which}, "tokens of kind "+c16SpecialKinds[which].class
+		}
+		sh := shape(rng, n)
+		if sh.headerN > 6 {
+			sh.headerN = rng.Intn(7)
+		}
+		p := c16Sprinkle(rng, c16NewDoc(rng, sh), kinds, []int{15, 40, 100}[rng.Intn(3)], sidx%4)
+		runDoc(sidx, c16WithSpecial(p, what), " special="+what)
+		sidx++
+	}
+	for which := 0; which <= len(c16SpecialKinds); which++ {
+		for _, n := range specialSizes {
+			sprinkled(n, which)
+		}
+		for i := 0; i < nSpecial; i++ {
+			sprinkled(srngSpecial.Intn(specialMax+1), which)
 		}
 	}
 	for n := 0; n <= 300; n++ {
